@@ -356,3 +356,22 @@ impl<T: Elem + SatisfyTraits<Tr>, M: MX, Tr: TrX + ?Sized> World<T, M, Tr> {
         out.outcome.push_str("ok");
     }
 }
+
+impl<T: Elem + SatisfyTraits<Tr>, M: MX, Tr: TrX + ?Sized> World<T, M, Tr> {
+    /// Drop the vector itself. A panicking element destructor inside the vector's own Drop may leak the remaining elements, but the
+    /// storage still has to be released (the leak oracles of `finish` stay armed after a fault) and nothing is destroyed twice.
+    pub fn do_drop_vec(&mut self, out: &mut Out) {
+        let home = &mut self.a as *mut AnyVec<Tr, M>;
+        let a = unsafe { std::ptr::read(home) };
+        let r = guarded(move || drop(a));
+        // a fresh empty vector takes its place
+        let fresh = AnyVec::<Tr, M>::new_in::<T>(M::make());
+        unsafe { std::ptr::write(home, fresh); }
+        self.ma.clear();
+        match r {
+            Ok(()) => out.outcome.push_str("ok"),
+            Err(Caught::Injected) => out.faulted = true,
+            Err(Caught::Panic(m)) => out.fail(Class::Own, "drop-panicked", format!("dropping the vector panicked: {m}")),
+        }
+    }
+}
